@@ -4,6 +4,7 @@ Tie shared by C02 and C08: facts regenerated from pkg/slip10, pkg/slip10/ellipti
 import Iota.Gen.Slip10
 import Iota.Tie.Expect
 import Iota.Model.Slip10
+import Iota.Proofs.Vectors.Slip10
 
 namespace Iota.Tie.Slip10
 open Iota
